@@ -91,3 +91,23 @@ class Model:
     def limit_den(self, N, num, den):
         r = self.raw([41, N, num, den])
         return (r[1], r[2]) if r[0] == 0 else None
+    # ---- C05 computable premise, primitives, plot ----
+    def branch_faithful(self, a, b): return bool(self.raw([42, W.e_shape(a), W.e_shape(b)]))
+    def prim(self, kind, arg, center):
+        """kind 0 square / 1 triangle / 2 regular_polygon(4); arg = pyarg wire form"""
+        return W.d_res(W.d_shape, self.raw([43, kind, arg, W.e_point(center)]))
+    def prim_circle(self, n, r, h, center):
+        return W.d_res(W.d_shape, self.raw([44, n, W.e_Q(r), W.e_Q(h), W.e_point(center)]))
+    def plot_shape(self, s):
+        out = []
+        for p in self.raw([45, W.e_shape(s)]):
+            if p[0] == 4:
+                out.append(("background",))
+            elif p[0] == 3:
+                out.append(("outline", bool(p[1]), [(W.d_point(v[0]), v[1]) for v in p[2]]))
+            else:
+                out.append(("fill" if p[0] == 1 else "hole", [(W.d_point(v[0]), v[1]) for v in p[1]]))
+        return out
+    def decode_path_jordan(self, j):
+        r = self.raw([46, W.e_jordan(j)])
+        return [W.d_jordan(x) for x in r[1]] if r[0] == 0 else None
